@@ -3,11 +3,28 @@ from __future__ import annotations
 
 import argparse
 import importlib
+import json
 import os
 import sys
 import traceback
 
 from . import core
+
+
+def body(prop: str, args) -> int:
+    core.build_lean()
+    chk = core.Check(prop, args.tier, args.seed)
+    chk.audit_info = core.audit(prop)
+    mod = importlib.import_module(f"harness.props.{prop.lower()}")
+    drv = core.Driver()
+    try:
+        if args.replay:
+            mod.replay(chk, drv, args.replay)
+        else:
+            mod.run(chk, drv)
+    finally:
+        drv.close()
+    return chk.finish()
 
 
 def main() -> int:
@@ -18,27 +35,47 @@ def main() -> int:
     ap.add_argument("--seed", type=int, default=int(os.environ.get("VERIF_SEED", "0") or 0))
     args = ap.parse_args()
     prop = args.prop.upper()
-    try:
-        core.build_lean()
-        chk = core.Check(prop, args.tier, args.seed)
-        chk.audit_info = core.audit(prop)
-        mod = importlib.import_module(f"harness.props.{prop.lower()}")
-        drv = core.Driver()
+    # the check body runs in a child process: real kernels are executed in-process by several checks, and
+    # a crash of the interpreter (segfault in a generated kernel, double free, ...) must become a reported
+    # violation, not the silent death of the check
+    mark = core.VERIF / "replays" / f".mark_{prop}_{os.getpid()}.json"
+    mark.parent.mkdir(exist_ok=True)
+    os.environ["VERIF_MARK_FILE"] = str(mark)
+    sys.stdout.flush()
+    pid = os.fork()
+    if pid == 0:
+        rc = 2
         try:
-            if args.replay:
-                mod.replay(chk, drv, args.replay)
-            else:
-                mod.run(chk, drv)
+            rc = body(prop, args)
+        except core.MachineryError as e:
+            print(f"MACHINERY-ERROR {prop}: {e}", file=sys.stderr)
+        except Exception:
+            traceback.print_exc()
+            print(f"MACHINERY-ERROR {prop}: unexpected exception", file=sys.stderr)
         finally:
-            drv.close()
-        return chk.finish()
-    except core.MachineryError as e:
-        print(f"MACHINERY-ERROR {prop}: {e}", file=sys.stderr)
-        return 2
-    except Exception:
-        traceback.print_exc()
-        print(f"MACHINERY-ERROR {prop}: unexpected exception", file=sys.stderr)
-        return 2
+            sys.stdout.flush()
+            sys.stderr.flush()
+            os._exit(rc)
+    _, status = os.waitpid(pid, 0)
+    try:
+        if os.WIFSIGNALED(status):
+            sig = os.WTERMSIG(status)
+            last = None
+            if mark.exists():
+                try:
+                    last = json.loads(mark.read_text())
+                except Exception:
+                    last = None
+            chk = core.Check(prop, args.tier, args.seed)
+            chk.audit_info = {}
+            chk.cov["rule"] = "the check process was killed by a signal while exercising the real code"
+            chk.case(("crash",), sample=last)
+            chk.violation(f"the process running the real code died with signal {sig} (crash in compiled code or in the runtime)",
+                          last or {"note": "no case had been marked"})
+            return chk.finish()
+        return os.WEXITSTATUS(status)
+    finally:
+        mark.unlink(missing_ok=True)
 
 
 if __name__ == "__main__":
